@@ -65,10 +65,10 @@ func mkConn(shape int) *vfake.Conn {
 }
 
 type outcome struct {
-	code     int // gRPC code observed by the client (4 = DeadlineExceeded); HTTP 504 is mapped to 4
-	elapsed  time.Duration
-	conn     *vfake.Conn
-	start    time.Time
+	code    int // gRPC code observed by the client (4 = DeadlineExceeded); HTTP 504 is mapped to 4
+	elapsed time.Duration
+	conn    *vfake.Conn
+	start   time.Time
 }
 
 func enforceOne(entry, shape int, d time.Duration) outcome {
